@@ -483,3 +483,8 @@ fn run_direct(d: &Value, ctx: &mut Ctx) -> Verdict {
         _ => Err(Failure::fault("unknown direct case")),
     }
 }
+
+/// libFuzzer entry: the bytes are a field section
+pub fn fuzz_bytes(data: &[u8], ctx: &mut Ctx) -> Verdict {
+    check_decode(data, Origin::Arbitrary, ctx)
+}
